@@ -4,7 +4,7 @@ from ..core.common import Violation
 from ..runner import Facet, Property
 
 WEIGHTS = {"timeout": 6, "wait": 2, "succeed": 2, "fail": 1, "join": 2, "spawn": 2, "interrupt": 7, "return": 1}
-VICTIM = {"timeout": 8, "wait": 3, "join": 2, "interrupt": 1, "spawn": 1}
+VICTIM = {"timeout": 8, "wait": 3, "join": 2, "interrupt": 1, "spawn": 1, "wait_cond": 2}
 ATTACK = {"timeout": 4, "interrupt": 8, "succeed": 2, "fail": 1, "spawn": 1}
 
 
@@ -25,6 +25,8 @@ def run_case(case):
                     ("intr_delivered", "delivered"), ("intr_delivered_target_due_now", "delivered with target due now")]:
         if st.get(k):
             classes.add(name)
+    if any(x.kind == "C" and x.abandoned for x in h.hevs.values()):
+        classes.add("victim interrupted while waiting on a composite event")
     for P in res.interp.procs:
         if not P.alive and P.intr_fifo:
             classes.add("victim ends with pending interrupts")
@@ -45,10 +47,11 @@ def strategy(tier):
     dl = [0, 1, 2, 0.5, 1, 0.1, 0.2, 0.3]
     ipol = kgen.policies(bias=["rewait"], dl=kgen.st.sampled_from(dl))
     pol = kgen.policies(bias=["continue", "continue"], dl=kgen.st.sampled_from(dl))
+    trees = kgen.cond_trees(depth=2, max_arity=3, delays=kgen.st.sampled_from([0, 1, 2, 0.5, 1]))
     mixed = kgen.programs(WEIGHTS, max_bodies=5, max_instrs=8, max_start=8 if big else 6, max_nev=2, min_start=2,
                           pol=pol, ipol=ipol, delay_set=dl)
     roles = kgen.programs_roles([VICTIM, VICTIM, ATTACK, ATTACK, WEIGHTS], max_instrs=8, max_start=8 if big else 6,
-                                max_nev=2, min_start=3, pol=pol, ipol=ipol, delay_set=[0, 1, 2, 0.5, 1])
+                                max_nev=2, min_start=3, pol=pol, ipol=ipol, delay_set=[0, 1, 2, 0.5, 1], trees=trees)
     return kgen.weighted([(roles, 2), (mixed, 1)])
 
 
@@ -66,6 +69,7 @@ PROP = Property(
     facets=[Facet("programs", strategy, run_case, quick=3000, thorough=20000,
                   essential=["interrupt at target instant", ">=2 interrupts pending", "interrupt of finished process",
                              "self interrupt", "re-yield old target", "old target fires while victim waits elsewhere",
-                             "victim ends with pending interrupts", "interrupt in spawn step"])],
+                             "victim ends with pending interrupts", "interrupt in spawn step",
+                             "victim interrupted while waiting on a composite event"])],
     assumptions=["a process is 'finished' once its generator body has returned or raised (harness bookkeeping)"],
 )
